@@ -71,21 +71,21 @@ def zernike(mask, index, normalize=True, rho=None, theta=None):
             Z = mask
         else:
             if normalize:
-                Z = np.sqrt(n+1) * R(m, n, rho) * mask
+                Z = np.where(mask, np.sqrt(n+1) * R(m, n, rho), 0)
             else:
-                Z = R(m, n, rho) * mask
+                Z = np.where(mask, R(m, n, rho), 0)
 
     elif m > 0:
         if normalize:
-            Z = np.sqrt(2) * np.sqrt(n+1) * R(m, n, rho) * np.cos(m*theta) * mask
+            Z = np.where(mask, np.sqrt(2) * np.sqrt(n+1) * R(m, n, rho) * np.cos(m*theta), 0)
         else:
-            Z = R(m, n, rho) * np.cos(m*theta) * mask
+            Z = np.where(mask, R(m, n, rho) * np.cos(m*theta), 0)
 
     else:
         if normalize:
-            Z = np.sqrt(2) * np.sqrt(n+1) * R(m, n, rho) * np.sin(m*theta) * mask
+            Z = np.where(mask, np.sqrt(2) * np.sqrt(n+1) * R(m, n, rho) * np.sin(m*theta), 0)
         else:
-            Z = R(m, n, rho) * np.sin(m*theta) * mask
+            Z = np.where(mask, R(m, n, rho) * np.sin(m*theta), 0)
 
     #out[mask_slice] = Z
     out = Z
